@@ -1,6 +1,7 @@
 (* c12_driver.ml — evaluates the extracted C12 model (key export / import formats) on request lines.
-   First token of every request: three flags "fwp" (f = Base58 lower-casing retry, w = fixes/C12-1 applied,
-   p = fixes/C12-2 applied), e.g. "011" = the repaired code.
+   First token of every request: four characters "fwpc" (f = Base58 lower-casing retry, w = fixes/C12-1 applied,
+   p = fixes/C12-2 applied, c = the harness's answer t/f to the curve oracle for the one public key the request can
+   submit to Key.__init__'s strict point test), e.g. "011t" = the repaired code, point on the curve.
    Key input tokens: i:<decimal> | b:<hex> | s:<hex of the ASCII text>.  Optional names: "-" = None.
    Booleans t/f, optional booleans n/t/f. *)
 module BZ = Z
@@ -93,17 +94,18 @@ let rec drop n l = if n = 0 then l else match l with [] -> [] | _ :: r -> drop (
 let dispatch toks =
   match toks with
   | [] -> "BADREQ"
-  | flags :: req when Stdlib.String.length flags = 3 ->
+  | flags :: req when Stdlib.String.length flags = 4 ->
       let fold = flags.[0] = '1' and wifcheck = flags.[1] = '1' and pubser = flags.[2] = '1' in
+      let oc (_ : C12_model.byte list) = flags.[3] = 't' in
       let gkf k ip = kf_s (lib_get_key_format fold wifcheck k ip) in
       let import via text rest =
         (* via = key | hdkey | fromwif, text = exported string (Coq bytes) *)
         match via, rest with
-        | "key", [hint; comp; ip] -> key_res (lib_key_import fold wifcheck (KStr text) (oname hint) (tf comp) (otf ip))
+        | "key", [hint; comp; ip] -> key_res (lib_key_import fold wifcheck oc (KStr text) (oname hint) (tf comp) (otf ip))
         | "hdkey", [hint; wt; ms; comp] ->
-            hd_res (lib_hdkey_import fold wifcheck (KStr text) (oname hint) (oname wt) (tf ms) (tf comp))
+            hd_res (lib_hdkey_import fold wifcheck oc (KStr text) (oname hint) (oname wt) (tf ms) (tf comp))
         | "fromwif", [hint; ms; comp] ->
-            hd_res (lib_hdkey_from_wif fold wifcheck text (oname hint) (otf ms) (tf comp))
+            hd_res (lib_hdkey_from_wif fold wifcheck oc text (oname hint) (otf ms) (tf comp))
         | _ -> "BADREQ" in
       (match req with
        | ["gkf"; k; ip] -> gkf (key_of_tok k) (otf ip)
@@ -119,15 +121,15 @@ let dispatch toks =
                  | Ok b -> hex_of_bytes b
                  | Err e -> err_s e))
        | ["key"; k; hint; comp; ip] ->
-           key_res (lib_key_import fold wifcheck (key_of_tok k) (oname hint) (tf comp) (otf ip))
+           key_res (lib_key_import fold wifcheck oc (key_of_tok k) (oname hint) (tf comp) (otf ip))
        | ["hdkey"; k; hint; wt; ms; comp] ->
-           hd_res (lib_hdkey_import fold wifcheck (key_of_tok k) (oname hint) (oname wt) (tf ms) (tf comp))
+           hd_res (lib_hdkey_import fold wifcheck oc (key_of_tok k) (oname hint) (oname wt) (tf ms) (tf comp))
        | ["fromwif"; s; hint; ms; comp] ->
-           hd_res (lib_hdkey_from_wif fold wifcheck (bytes_of_hex s) (oname hint) (otf ms) (tf comp))
+           hd_res (lib_hdkey_from_wif fold wifcheck oc (bytes_of_hex s) (oname hint) (otf ms) (tf comp))
        | "rtwif" :: rest when List.length rest >= 14 ->
            (* rtwif <12 keymeta tokens> <via> <import args…> *)
            let km = km_of (take 12 rest) in
-           (match lib_wif km with
+           (match lib_wif oc km with
             | Err e -> "EXPORT " ^ err_s e
             | Ok w ->
                 (match drop 12 rest with
@@ -137,7 +139,7 @@ let dispatch toks =
        | "rtx" :: which :: rest when List.length rest >= 14 ->
            let km = km_of (take 12 rest) in
            let want_private = (which = "prv") in
-           (match lib_xkey pubser km want_private with
+           (match lib_xkey pubser oc km want_private with
             | Err e -> "EXPORT " ^ err_s e
             | Ok w ->
                 (match drop 12 rest with
